@@ -507,6 +507,8 @@ def shared_text_histories(ctx, contract):
         mpctx = multiprocessing.get_context('fork')
         with mpctx.Pool(1, initializer=dtres._worker_init) as pool:            # ONE process: the history is the point
             results = pool.map(dtres._worker_run, [[(c[0], c[3], c[4]) for c in cases]], chunksize=1)[0]
+        if isinstance(results, tuple):       # dtres._worker_run returns (results, swallowed-exception notes)
+            results = results[0]
         ctx.count('pipeline:shared-text-history (%s)' % tag, len(cases))
         seen = set()
         for case, res in zip(cases, results):
